@@ -111,6 +111,11 @@ def sample_doc(voc, variant=0):
         # line boundaries other than LF inside a value (NEL, LINE SEPARATOR, PARAGRAPH SEPARATOR):
         # valid in every format; text and binary targets must carry the same characters
         d.entity("ex:lines", {"ex:v": "Größe\u0085Maß\u2028x\u2029y"})
+    if variant == 6:
+        # several stream buffers long, non-ASCII characters everywhere (whatever is written block-wise
+        # meets a character across a block boundary)
+        for i in range(400):
+            d.entity("ex:big%d" % i, {"ex:cjk": "中文字符" * 6 + str(i), "ex:lat": "ßüéñ" * 5})
     b = d.bundle("ex:b")
     b.agent("ex:ag")
     return d
